@@ -26,4 +26,3 @@ Qed.
 Theorem parse_lines_total text : (exists lines, parse_lines text = Ok lines) \/ parse_lines text = Err eParse.
 Proof. rewrite parse_lines_eq. destruct (parse_string pil_grammar text); eauto. Qed.
 
-Print Assumptions parse_lines_eq.
